@@ -4,6 +4,7 @@ import KyupyVerif.Props.C15Gen
 import KyupyVerif.Proofs.DataPathLanes
 import KyupyVerif.Proofs.DataPathStr
 import KyupyVerif.Proofs.DataPathVal
+import KyupyVerif.Proofs.DataPathCycle
 import KyupyVerif.Drv.DataPath
 /-! # C15 × C01/C02/C06 — the data path: from PATTERN STRINGS to RESULT STRINGS through `LogicSim`
 
@@ -38,14 +39,22 @@ patterns `P` (not only multiples of 8) and every array / list of patterns:
   `S = len(s_nodes) ≠ 1`; GENERATED `interpret` and render tables): the result text is, line `p` / column `q`, the render character of
   the code of `laneRun` of string `p` at the captured signal, and `laneRun` is THE solution of the gate equations;
   `logic_sim_string_single8/4/2`: one string (`P = 1`);
-* (3) `cycle_patterns2` — `cycle(k)` for m = 2 at byte level: lane `p` of planes 0 of `s[0]`, `s[1]` after `k` cycles = the one-lane
-  `Cycle.cycleK` on lane `p` (to which C01 `cycle_iter`, `cycle_step` apply); `cycle_byte_level_is_value_level` for m = 2, 4;
-* `driver_runs_the_model` — the bit-parallel semantics the driver command `dp.run` evaluates is the one of these theorems.
+* (2e) `strip_forks_irrelevant_patterns2/4/8` — the result array of a simulator built with `strip_forks=True` is the one of the un-stripped
+  simulator (hypotheses `forksOKB`, `capDriversB` of C06 / C01), so (2b) holds for both settings;
+* (3) `cycle(k)` at byte level: `cycle_byte_level_is_value_level` — the byte-level loop seen through the planes `:mdim` IS `Cycle.cycleK` of C01
+  (m = 2, 4: `s_ppo_to_ppi` copies the row; m = 8: the transition builder `merge8W`), so C01 `cycle_step`, `cycle_iter`, `cycle_end_to_end`,
+  `cycle_strip_irrelevant` speak about the bytes; `cycle_patterns2/4/8` — lane `p` (padding lanes too) of the planes of `s[0]`, `s[1]` after
+  `k` cycles = the one-lane `Cycle.cycleK` on lane `p`; `cycle_patterns_end_to_end2` — composition with C01 `cycle_iter` (k-fold next-state
+  iterate, port rows untouched, `s[1]` = capture of the previous labelling);
+* `driver_runs_the_model`, `driver_array_form` — the bit-parallel semantics and the array form (`cycle1BA`, `cycleKBA`) the driver command
+  `dp.run` evaluates are / leave the same `s` as the functions of these theorems.
 CORRESPONDENCE (harness/c15.py `datapath_tie`, driver command `dp.run`): on generated circuits (C01's generator, incl. state elements,
 open data pins, ports without data pin), m ∈ {2, 4, 8}, `strip_forks` ∈ {0, 1}, random pattern strings over alphabet + aliases, `P` =
-1..23, `k` = 0..3 cycles: EVERY BYTE of `s[0]`, `s[1]` after the real run (all three planes, padding lanes included) = `DP.cycleKBA` /
-`DP.captureB`, and the real `mv_str(bp_to_mv(s[1])[..., :P])` = `DP.simStrings`; hypotheses `wfB`, `orderOKB` evaluated per case on
-the real circuit and the real `topological_order()`.
+1..23, `k` = 0..3 cycles, `c_reuse` ∈ {0, 1}: EVERY BYTE of `s[0]`, `s[1]` after the real run (all three planes, padding lanes included) =
+`DP.cycleKBA` / `DP.cycle1BA`, and the real `mv_str(bp_to_mv(s[1])[..., :P])` = `mvStr ∘ takeLast P ∘ bpToMv` of the model rows;
+hypotheses `wfB`, `orderOKB` evaluated per case on the real circuit and the real `topological_order()`.  Still correspondence, not
+theorem: that the real `SimOps` tables are the model's (`genOps`, `tabsOf`: C01 `cycle_tie`, C08), that the real memory-level run
+equals the signal-level one (theorem under the map certificate: C01 `cycle_on_memory`), NumPy itself.
 NOT modelled: NumPy broadcasting of an `s[0]` assignment whose byte count differs from the simulator's (`sims` must give
 `cdiv P 8` bytes; the model returns `none` when the shape is not `(S, 3, nbytes)`); `inject_cb`. -/
 namespace KV.C15
@@ -386,15 +395,17 @@ example : simStr8 [10] C01.demoNet demoOrder false [demoPats.getD 6 []] = some (
 `cycleKB C sem ops T k st` = `LogicSim.cycle(k)` on the byte-level state (`s_to_c; c_prop; c_to_s; s_ppo_to_ppi`, k times; for m = 2, 4
 `s_ppo_to_ppi` copies the whole row `s[1, p]` to `s[0, p]`, all three planes). -/
 
-/-- the byte-level loop, seen through the planes each arity reads, IS the value-level loop `Cycle.cycleK` of C01 (m = 2, 4): every
+/-- the byte-level loop, seen through the planes each arity reads, IS the value-level loop `Cycle.cycleK` of C01 (m = 2, 4: `merge` = copy; m = 8: the transition builder `merge8W`): every
     statement of C01 about `cycleK` over `BitVec` / `P2 BitVec` values (`cycle_step`, `cycle_iter`, `cycle_end_to_end`,
     `cycle_strip_irrelevant`) is a statement about the planes `:mdim` of the byte-level `s` -/
 theorem cycle_byte_level_is_value_level (nb : Nat) (ops : List Op) (T : Tabs) (k : Nat) :
     (∀ (sem : Op → List (BitVec (8 * nb)) → BitVec (8 * nb)) (st : StB (BitVec (8 * nb))),
       decSt (codec2 nb) (cycleKB (codec2 nb) sem ops T k st) = cycleK sem ops T mergeCopy 0 k (decSt (codec2 nb) st)) ∧
     (∀ (sem : Op → List (P2 (BitVec (8 * nb))) → P2 (BitVec (8 * nb))) (st : StB (P2 (BitVec (8 * nb)))),
-      decSt (codec4 nb) (cycleKB (codec4 nb) sem ops T k st) = cycleK sem ops T mergeCopy ⟨0, 0⟩ k (decSt (codec4 nb) st)) := by
-  constructor
+      decSt (codec4 nb) (cycleKB (codec4 nb) sem ops T k st) = cycleK sem ops T mergeCopy ⟨0, 0⟩ k (decSt (codec4 nb) st)) ∧
+    (∀ (sem : Op → List (P3 (BitVec (8 * nb))) → P3 (BitVec (8 * nb))) (st : StB (P3 (BitVec (8 * nb)))),
+      decSt (codec8 nb) (cycleKB (codec8 nb) sem ops T k st) = cycleK sem ops T merge8W ⟨0, 0, 0⟩ k (decSt (codec8 nb) st)) := by
+  refine ⟨?_, ?_, ?_⟩
   · intro sem st
     have h := cycleKB_dec (codec2 nb) mergeCopy (codec2_lawful nb) sem ops T k st
     have hd : (codec2 nb).dec [] = 0 := by simp [codec2, plane]
@@ -402,6 +413,10 @@ theorem cycle_byte_level_is_value_level (nb : Nat) (ops : List Op) (T : Tabs) (k
   · intro sem st
     have h := cycleKB_dec (codec4 nb) mergeCopy (codec4_lawful nb) sem ops T k st
     have hd : (codec4 nb).dec [] = ⟨0, 0⟩ := by simp [codec4, plane]
+    rw [hd] at h; exact h
+  · intro sem st
+    have h := cycleKB_dec (codec8 nb) merge8W (codec8_lawful nb) sem ops T k st
+    have hd : (codec8 nb).dec [] = ⟨0, 0, 0⟩ := by simp [codec8, plane]
     rw [hd] at h; exact h
 
 /-- lane `p` of plane 0 of every row of `s[i]` -/
@@ -431,6 +446,63 @@ theorem cycle_patterns2 (nb : Nat) (ops : List Op) (T : Tabs) (k : Nat) (st : St
   show _ = (cycleK _ ops T mergeCopy false k _).s.s0 ∧ _ = (cycleK _ ops T mergeCopy false k _).s.s1
   rw [ei]
   exact hl
+
+/-- one op row is lane-wise (m = 8, m = 4): the step of `C02.sim8_lanes` / `sim4_lanes`, in the form the clock loop needs -/
+theorem op_lanes8 (nb p : Nat) (hp : p < 8 * nb) (code : Nat) (xs : List (P3 (BitVec (8 * nb)))) (ys : List V3)
+    (hxy : All2 (fun v b => ln8 nb p v = b) xs ys) : ln8 nb p (semW8 nb code xs) = semL8 code ys := by
+  have hd : ln8 nb p (⟨0, 0, 0⟩ : P3 (BitVec (8 * nb))) = (default : V3) := by
+    have hz : (0 : BitVec (8 * nb)).getLsbD p = false := by simp
+    show (⟨(0 : BitVec (8 * nb)).getLsbD p, (0 : BitVec (8 * nb)).getLsbD p, (0 : BitVec (8 * nb)).getLsbD p⟩ : V3) = _
+    rw [hz]; rfl
+  have h0 := hxy.getD 0 _ _ hd; have h1 := hxy.getD 1 _ _ hd
+  have h2 := hxy.getD 2 _ _ hd; have h3 := hxy.getD 3 _ _ hd
+  unfold semW8 C02.semLw8 semL8
+  show ((lane (8 * nb) p hp).f3 (Gen.sem8 code _ _ _ _)).toV3 = _
+  rw [C02.lanewise8 (8 * nb) p hp]
+  simp only [arg]
+  rw [← h0, ← h1, ← h2, ← h3]
+  rfl
+
+theorem op_lanes4 (nb p : Nat) (hp : p < 8 * nb) (code : Nat) (xs : List (P2 (BitVec (8 * nb)))) (ys : List V2)
+    (hxy : All2 (fun v b => ln4 nb p v = b) xs ys) : ln4 nb p (semW4 nb code xs) = semL4 code ys := by
+  have hd : ln4 nb p (⟨0, 0⟩ : P2 (BitVec (8 * nb))) = (default : V2) := by
+    have hz : (0 : BitVec (8 * nb)).getLsbD p = false := by simp
+    show (⟨(0 : BitVec (8 * nb)).getLsbD p, (0 : BitVec (8 * nb)).getLsbD p⟩ : V2) = _
+    rw [hz]; rfl
+  have h0 := hxy.getD 0 _ _ hd; have h1 := hxy.getD 1 _ _ hd
+  have h2 := hxy.getD 2 _ _ hd; have h3 := hxy.getD 3 _ _ hd
+  unfold semW4 C02.semLw4 semL4
+  show ((lane (8 * nb) p hp).f2 (Gen.sem4 code _ _ _ _)).toV2 = _
+  rw [C02.lanewise4 (8 * nb) p hp]
+  simp only [arg]
+  rw [← h0, ← h1, ← h2, ← h3]
+  rfl
+
+/-- **`cycle(k)`, m = 8, lanes** (`s_ppo_to_ppi` builds the transition `merge8L`: initial := assigned final, final := captured final,
+    activity := their difference): the three planes of `s[0]`, `s[1]` after `cycle(k)` on bytes show in lane `p` the ONE-LANE
+    `Cycle.cycleK` over `V3` started on lane `p` — to which C01 `cycle_step` / `cycle_iter` apply with `merge := merge8L` -/
+theorem cycle_patterns8 (nb : Nat) (ops : List Op) (T : Tabs) (k : Nat) (st : StB (P3 (BitVec (8 * nb)))) (p : Nat) (hp : p < 8 * nb) :
+    let r := cycleKB (codec8 nb) (fun op => semW8 nb op.code) ops T k st
+    let rb := cycleK (fun op => semL8 op.code) ops T merge8L V3.zero k
+      ⟨fun x => ln8 nb p (st.env x), ⟨st.s0.map fun row => ln8 nb p ((codec8 nb).dec row), st.s1.map fun row => ln8 nb p ((codec8 nb).dec row)⟩⟩
+    (r.s0.map fun row => ln8 nb p ((codec8 nb).dec row)) = rb.s.s0 ∧ (r.s1.map fun row => ln8 nb p ((codec8 nb).dec row)) = rb.s.s1 := by
+  have h := cycleKB_lanes (codec8 nb) merge8W (codec8_lawful nb) (ln8 nb p) (semW8 nb) semL8 merge8L ops
+    (fun op _ xs ys hxy => op_lanes8 nb p hp op.code xs ys hxy) (ln8_merge nb p) T k st
+  have hz : ln8 nb p ((codec8 nb).dec []) = V3.zero := by simp [ln8, codec8, plane]; rfl
+  rw [hz] at h
+  exact h
+
+/-- **`cycle(k)`, m = 4, lanes** -/
+theorem cycle_patterns4 (nb : Nat) (ops : List Op) (T : Tabs) (k : Nat) (st : StB (P2 (BitVec (8 * nb)))) (p : Nat) (hp : p < 8 * nb) :
+    let r := cycleKB (codec4 nb) (fun op => semW4 nb op.code) ops T k st
+    let rb := cycleK (fun op => semL4 op.code) ops T mergeCopy (ofCode4 0) k
+      ⟨fun x => ln4 nb p (st.env x), ⟨st.s0.map fun row => ln4 nb p ((codec4 nb).dec row), st.s1.map fun row => ln4 nb p ((codec4 nb).dec row)⟩⟩
+    (r.s0.map fun row => ln4 nb p ((codec4 nb).dec row)) = rb.s.s0 ∧ (r.s1.map fun row => ln4 nb p ((codec4 nb).dec row)) = rb.s.s1 := by
+  have h := cycleKB_lanes (codec4 nb) mergeCopy (codec4_lawful nb) (ln4 nb p) (semW4 nb) semL4 mergeCopy ops
+    (fun op _ xs ys hxy => op_lanes4 nb p hp op.code xs ys hxy) (fun _ _ => rfl) T k st
+  have hz : ln4 nb p ((codec4 nb).dec []) = ofCode4 0 := by simp [ln4, codec4, plane]; rfl
+  rw [hz] at h
+  exact h
 
 open KV.Cycle in
 /-- **`cycle(k)`, m = 2, end to end**: for every well-formed netlist, topological order, `k`, byte-level state (rows for every
